@@ -58,6 +58,9 @@ pub enum Bad {
     /// drop_table on a name that is not a table although `_Validation` still
     /// holds rows for it (validation templates ship such rows)
     DropGhost(u8),
+    /// a batch that would take a table of 65,535 or 65,536 rows past the row
+    /// limit (runs for one selector value in eight: the table is expensive)
+    InsertOverRowLimit(u8),
 }
 
 #[derive(Clone, Debug, Serialize, Deserialize, Hash, PartialEq, Eq)]
@@ -181,6 +184,12 @@ fn perform(run: &mut Run, bad: &Bad) -> Option<(String, std::io::Result<()>)> {
             Some((format!("drop_table({n:?})"), run.pkg().drop_table(n)))
         }
         Bad::DropGhost(_) => Some(("drop_table(\"Ghost\"), which is no table but has _Validation rows".into(), run.pkg().drop_table("Ghost"))),
+        Bad::InsertOverRowLimit(k) => {
+            let start = 70_000;
+            let extra = if (k / 8) % 2 == 0 { 2 } else { 5 };
+            let rows: Vec<Vec<Value>> = (0..extra).map(|i| vec![Value::Int(start + i), Value::from(format!("over the limit {i}"))]).collect();
+            Some((format!("insert(Full, {extra} more rows)"), run.pkg().insert_rows(Insert::into("Full").rows(rows))))
+        }
         Bad::InsertUnknownTable => Some(("insert(unknown table)".into(), run.pkg().insert_rows(Insert::into("NoSuchTable").row(vec![Value::Int(1)])))),
         Bad::InsertArity(sel, n) => {
             let t = table_at(*sel)?;
@@ -378,6 +387,23 @@ pub fn check_case(case: &Case, st: &mut Stats) -> Check {
         }
         run.trace.push("create_table(EmptyKey); insert(EmptyKey, ['' | null, 'first label'], ['beta', 'second label'])".into());
     }
+    if let Bad::InsertOverRowLimit(k) = &case.bad {
+        if k % 8 != 0 {
+            st.class("not-applicable");
+            return Ok(());
+        }
+        let n = if (k / 16) % 2 == 0 { 65_535 } else { 65_536 };
+        let setup = (|| -> std::io::Result<()> {
+            run.pkg().create_table("Full", vec![Column::build("k").primary_key().int32(), Column::build("v").nullable().string(0)])?;
+            let rows: Vec<Vec<Value>> = (0..n).map(|i| vec![Value::Int(i), if i % 1000 == 0 { Value::from(format!("row {i}")) } else { Value::Null }]).collect();
+            run.pkg().insert_rows(Insert::into("Full").rows(rows))
+        })();
+        if setup.is_err() {
+            st.class("not-applicable");
+            return Ok(());
+        }
+        run.trace.push(format!("create_table(Full); insert(Full, {n} rows)"));
+    }
     if let Bad::DropGhost(k) = &case.bad {
         let row = |col: &str| -> Vec<Value> {
             vec![Value::from("Ghost"), Value::from(col), Value::from("N"), Value::Null, Value::Null, Value::Null, Value::Null, Value::from("Identifier"), Value::Null, Value::from("left over")]
@@ -477,6 +503,7 @@ fn bad_strategy() -> impl Strategy<Value = Bad> {
         3 => (any::<u8>(), any::<u8>()).prop_map(|(a, b)| Bad::StreamBadName(a, b)),
         1 => any::<u8>().prop_map(Bad::StreamMissing),
         2 => any::<u8>().prop_map(Bad::DropGhost),
+        1 => any::<u8>().prop_map(Bad::InsertOverRowLimit),
     ]
 }
 
